@@ -1025,10 +1025,10 @@ def get_cmt(model: Model):
         names = odes.compartment_names
         remap = {}
         if isinstance(odes, CompartmentalSystem):
+            central_number = names.index(odes.central_compartment.name) + 1
             for dosing in odes.dosing_compartments:
                 if dosing == odes.central_compartment:
-                    remap[2] = names.index(dosing.name) + 1
-                    central_number = names.index(dosing.name) + 1
+                    remap[2] = central_number
                 else:
                     remap[1] = names.index(dosing.name) + 1
         admidcols = admidcols.replace(remap)
